@@ -342,7 +342,12 @@ class CParser:
                     or len(spec["type"][-1].names) != 1
                     or not self._is_type_in_scope(spec["type"][-1].names[0])
                 ):
-                    coord = "?"
+                    # Point at the first type specifier if there is one,
+                    # otherwise at the token where a declarator was expected.
+                    tok = self._peek()
+                    coord: Any = (
+                        self._tok_coord(tok) if tok is not None else self.clex.filename
+                    )
                     for t in spec["type"]:
                         if hasattr(t, "coord"):
                             coord = t.coord
